@@ -133,6 +133,19 @@ CHECKS['C03'] = ('fault_enumeration', 'explore',
     'process-kill model (no power loss); SQLite atomic commit trusted; run 2 uses the default '
     'schedule.', '5/C03')
 
+CHECKS['C20'] = ('model_checking', 'explore',
+    'stateless DFS (deviation budget) over server answer orders of the unmodified application '
+    'with robots on; event log judged by an independent robots.txt matcher',
+    'Ten rule files (absent, disallow-all, prefixes, allow-inside-disallow, agent groups, '
+    'comments/CRLF, >4 KiB with the decisive rule late, other-agent only, empty, shared groups) x '
+    'delivery (plain, chunked, 301 to another path, 500, 404, 403) x user agents x 1 or 3 origins '
+    '(same host other port, other host) x concurrency 1-2 (3 thorough) x all answer orders: no '
+    'disallowed URL requested, nothing requested from an origin before its robots.txt response '
+    'arrived, no robots.txt re-request after it was obtained, 404 allows all, 5xx fetches nothing, '
+    'allowed links are fetched, links of a nofollow page get no row or request.',
+    'reference matcher vt/refs/robotsref.py on wildcard-free files where first-match and '
+    'longest-match agree.', '5/C20')
+
 NOT_YET = {}
 
 
